@@ -381,8 +381,17 @@ func c07Check(cs *vrt.Case, r *vrt.Rng, t c07Tuple) {
 				ops = append(ops, x.Text(10))
 			}
 			if key, ok := c07Goldschmidt(t, v, outs[k], want); ok {
+				if exh {
+					// every operand vector of this tuple is evaluated: the failing
+					// vectors of the unchanged tree are pinned, another failing vector
+					// with the same signature is a new witness (all vectors are looked at)
+					key = vrt.WitnessKey(key, fmt.Sprintf("%s %s w=%v wr=%d|%s|%s", t.spec.name, t.target, t.w, t.wr, strings.Join(ops, ","), outs[k].Text(10)))
+				}
 				cs.Violate(key, fmt.Sprintf("Goldschmidt divider inexact: %s operands %v give %s, exact %s", t, ops, outs[k].Text(10), want.Text(10)),
 					map[string]any{"tuple": t.String(), "operands": ops, "got": outs[k].Text(10), "want": want.Text(10)})
+				if exh {
+					continue
+				}
 				cs.Evals += int64(judged)
 				return
 			}
